@@ -1033,6 +1033,16 @@ def check_argmin_steps(res, qz, run, outs, vin, inst0, where):
                 # inner scan finished, or the pitch class of this candidate is disabled: nothing may change
                 res.ob('R-ARGMIN', inst + '|%s leaves the best candidate and its distance alone' % ('end of the pitch-class scan' if not to_inner else 'disabled pitch class'),
                        same_best and same_dist, 'best %r -> %r, distance %r -> %r' % (best0, b1.term, dist0, d1.term), where, key='R-ARGMIN:keep:%s:%d' % (inst0, n))
+                if not to_inner and en is not None:
+                    # this path tested whether the candidate is enabled - so the iterator had NOT run out - and then left the
+                    # pitch-class scan (a `break`): the rest of the octave is skipped, which is only sound after the last pitch
+                    # class or once the scan has passed the nearest candidate (ascending order: everything later is farther).
+                    # (A `break` placed before the enabled test is not recognised by this rule.)
+                    last = ctx.decide(cmp_term('Ge', pc, 11)) is True
+                    passed = _abs_cmp(ctx, 'Ge', d, dist0) and _abs_cmp(ctx, 'Ge', d, Poly.const(H)) and ctx.decide(cmp_term('Ge', c, vin)) is True
+                    res.ob('R-ARGMIN', inst + '|the pitch-class scan is abandoned only after its last candidate or past the nearest one', last or passed,
+                           'the scan of this octave is left after candidate %r (pitch class %r) on a path that implies neither "last pitch class" nor "already farther than the best so far and above the input"; later candidates of the octave are never compared' % (c, pc),
+                           where, key='R-ARGMIN:break:%s:%d' % (inst0, n))
                 continue
             if en is not True:
                 res.ob('R-ARGMIN', inst + '|candidate enabled-ness decided on every path', False,
